@@ -205,6 +205,28 @@ let bv_case f =
          | _ -> by_list ^ " || CE")
       else by_list
 
+(* sv_from_indices on an arbitrary index list: CE when refused, else the structural tables *)
+let bvidx_case f =
+  let branch = int_of_string (List.nth f 1) in
+  let n = int_of_string (List.nth f 2) in
+  let idx = nums (List.nth f 3) in
+  match sv_from_indices (nat_of_int branch) (nat_of_int n) (List.map nat_of_int idx) with
+  | None -> "CE"
+  | Some v ->
+      let bits = List.init n (fun i -> List.mem i idx) in
+      let ones = List.length (List.filter (fun b -> b) bits) in
+      let zeros = n - ones in
+      let len = nat_of_int n in
+      let tab name cnt f = name ^ "=" ^ String.concat "," (List.init cnt (fun i -> f (nat_of_int i))) in
+      let rank_opt i = match sv_rank v i with Ok r -> r | _ -> None in
+      "OK " ^ String.concat " " [
+        "len=" ^ show_nat len;
+        tab "a" (n + 2) (fun i -> show_res (show_opt (fun b -> if b then "1" else "0")) (sv_access v i));
+        tab "r" (n + 2) (fun i -> show_res (show_opt show_nat) (sv_rank v i));
+        tab "z" (n + 2) (fun i -> show_opt show_nat (default_rank0 rank_opt i));
+        tab "s" (ones + 3) (fun i -> show_opt show_nat (sv_select v i));
+        tab "t" (zeros + 3) (fun i -> show_res (show_opt show_nat) (default_select0 len rank_opt i)) ]
+
 (* the L and K tables of the rrr model, for comparison with the literals in rrr.rs *)
 let rrrtab_case () =
   let (l, k) = rrr_tables in
@@ -265,6 +287,7 @@ let () =
           | "doc" -> doc_case f
           | "bv" -> bv_case f
           | "rrrtab" -> rrrtab_case ()
+          | "bvidx" -> bvidx_case f
           | "wt" -> wt_case f
           | "sais" -> sais_case f
           | "" -> ""
